@@ -347,6 +347,14 @@ PROBES = [
     ("Select(Select(ds, lambda e: (First(Select(e.jets, lambda j: (j.pt, j.a))), e.met)), lambda u: u[0][0] + u[1])", ("leaf", "int")),
     ("Select(Where(Select(ds, lambda e: First(Select(e.jets, lambda j: [j.pt, (j.a, e.met)]))), lambda f: f[1][0] > 0), lambda f: f[0] + f[1][1])", ("leaf", "int")),
     ("SelectMany(SelectMany(Select(ds, lambda e: (e.jets, e.a)), lambda t: Select(t[0], lambda j: (j.trk, t[1]))), lambda u: Select(u[0], lambda k: k.pt + u[1]))", ("leaf", "int")),
+    # a fusion INSIDE a stage lambda (a nested chain over one packed field that packs and unpacks itself) whose last lambda also reads
+    # another packed field of the stage parameter: the definition of the stage parameter is needed two frames out (round 10, C14_m11)
+    ("Select(Select(ds, lambda e: (e.jets, e.met)), lambda t: t[0].Select(lambda j: (j.pt, j.a)).Select(lambda p: p[0] + t[1]))", ("leaf", "int")),
+    ("Select(Select(ds, lambda e: (e.jets, e.met)), lambda t: Select(Select(t[0], lambda j: (j.pt, j.a)), lambda p: p[0] + t[1]))", ("leaf", "int")),
+    ("Select(Select(ds, lambda e: {'js': e.jets, 'm': e.met}), lambda d: d.js.Select(lambda j: {'pt': j.pt, 'a': j.a}).Where(lambda r: r.pt > d.m).Select(lambda r: r.a))", ("leaf", "int")),
+    ("SelectMany(Select(ds, lambda e: [e.jets, e.met]), lambda t: Select(Select(t[0], lambda j: (j.pt, j.a)), lambda p: p[1] * t[1]))", ("leaf", "int")),
+    ("Select(Where(Select(ds, lambda e: (e.jets, (e.met, e.a))), lambda t: t[1][1] > 0), lambda t: Select(Select(t[0], lambda j: [j.pt, j.a]), lambda p: p[0] - t[1][0]))", ("leaf", "int")),
+    ("Select(Select(ds, lambda e: (e.jets, e.met, e.a)), lambda t: Select(Where(Select(t[0], lambda j: (j.pt, t[2])), lambda p: p[0] > t[1]), lambda p: p[0] + p[1] + t[1]))", ("leaf", "int")),
 ]
 
 
